@@ -16,7 +16,7 @@ from .kernel import H, Sim, Violation
 from .scenarios import BaseScenario
 from .snapshot import ustr
 
-KINDS = {"add_data": 8, "set_values": 6, "rm_vertices": 7, "rm_cells": 5, "masked_copy": 4, "bad_call": 3, "gc": 3, "reopen": 4, "reopen_same": 1, "switch": 2}
+KINDS = {"add_data": 8, "set_values": 6, "rm_vertices": 7, "rm_cells": 5, "masked_copy": 4, "data_masked_copy": 3, "bad_call": 3, "gc": 3, "reopen": 4, "reopen_same": 1, "switch": 2}
 DKINDS = ["float", "integer", "boolean", "text", "referenced"]
 
 
@@ -451,6 +451,40 @@ class GeometryScenario(BaseScenario):
         del new
         w["objs"].append(copy)
         sim.probe("masked_copy")
+        return "ok"
+
+    def do_data_masked_copy(self, sim, ws, w, obj, r, cfg, path):
+        """data.copy(mask=...) onto the same object: the copy holds the kept values and no-data elsewhere; the source keeps all."""
+        names = [n for n, d in obj.data.items() if d["dkind"] in FILL and d["dkind"] not in ("text",) and n not in ("tagV", "tagC")]
+        if not names:
+            return "skipped"
+        name = names[r.randrange(len(names))]
+        d = obj.data[name]
+        order = obj.vtags if d["assoc"] == "VERTEX" else obj.ctags
+        if len(order) < 2:
+            return "skipped"
+        mask = [r.random() < 0.6 for _ in order]
+        if all(mask):
+            mask[r.randrange(len(mask))] = False
+        new_name = f"cp{len(obj.data)}_{d['dkind']}"
+        ent = self.ent(ws, obj)
+        src = [c for c in ent.children if c.name == name and hasattr(c, "values")]
+        if not src:
+            del ent
+            return "skipped"
+        try:
+            new = src[0].copy(mask=np.array(mask), name=new_name, clear_cache=cfg.get("clear_cache", False))
+            raised = None
+        except Exception as err:  # pylint: disable=broad-except
+            raised = type(err).__name__
+            new = None
+        del ent, src
+        if raised is not None or new is None:
+            return "raised:" + str(raised)
+        del new
+        fill = FILL.get(d["dkind"], "")
+        obj.data[new_name] = {"assoc": d["assoc"], "dkind": d["dkind"], "values": {t: (d["values"][t] if m else fill) for t, m in zip(order, mask)}}
+        sim.probe("data_masked_copy")
         return "ok"
 
     def do_bad_call(self, sim, ws, w, obj, r, cfg, path):
